@@ -4,9 +4,15 @@ import (
 	"encoding/json"
 	"errors"
 	"fmt"
+	"net/http"
 	"os"
+	"strings"
+	"sync"
 	"testing"
+	"time"
 
+	netty "github.com/go-netty/go-netty"
+	"github.com/go-netty/go-netty/codec/xhttp"
 	"pgregory.net/rapid"
 
 	"verif/harness/core"
@@ -86,8 +92,69 @@ func genC07(t *rapid.T) E3Case {
 	return c
 }
 
+// runC07HTTP: a panic inside the application's http.Handler, i.e. inside the shipped handler adapter's read delivery.
+// It is an exception like any other: delivered once to the exception handlers (the value itself when it is an error),
+// and since nobody consumes it the channel is closed with it.
+func runC07HTTP(c E3Case, cls *core.ClassSet) (out core.Outcome) {
+	var val interface{}
+	switch c.HTTPPanic {
+	case "abort":
+		val = http.ErrAbortHandler
+	case "string":
+		val = "verif: http handler panic string"
+	default:
+		val = makePanicValue(c.HTTPPanic, 7)
+	}
+	handler := http.HandlerFunc(func(w http.ResponseWriter, r *http.Request) { panic(val) })
+	// the adapter handles exceptions itself (it closes the channel with them): the recorder sits in front of it
+	var mu sync.Mutex
+	var seen []error
+	recorder := netty.ExceptionHandlerFunc(func(ctx netty.ExceptionContext, ex netty.Exception) {
+		mu.Lock()
+		seen = append(seen, ex)
+		mu.Unlock()
+		ctx.HandleException(ex)
+	})
+	rig := newChanRig(c.Queue, xhttp.ServerCodec(), recorder, xhttp.Handler(handler))
+	defer rig.shutdown()
+	rig.tr.Feed([]byte("GET /x HTTP/1.1\r\nHost: h\r\n\r\n"))
+	if !rig.quiesce(10 * time.Second) {
+		out.Inconclusive = "http panic: read loop neither parked nor closed within 10 s"
+		return
+	}
+	cls.Add("http-handler-panic:%s", c.HTTPPanic)
+	cls.Add("site:read")
+	out.NonTrivial = true
+	mu.Lock()
+	exs := append([]error{}, seen...)
+	mu.Unlock()
+	matches := 0
+	for _, ex := range exs {
+		if e, ok := val.(error); ok {
+			if ex == e || errors.Is(ex, e) {
+				matches++
+			}
+		} else if ex != nil && strings.Contains(ex.Error(), fmt.Sprint(val)) {
+			matches++
+		}
+	}
+	if matches != 1 {
+		out.Violation = core.Viol("C07/http-handler-panic-not-routed", "the http.Handler panicked with %T %v inside the shipped handler adapter; the exception handlers received %v (want that value exactly once)", val, val, exs)
+		return
+	}
+	if !rig.tr.IsClosed() {
+		out.Violation = core.Viol("C07/not-closed-after-unconsumed-exception", "the exception %v was not consumed by any handler but the channel is still open", val)
+	}
+	return
+}
+
 // enumC07 enumerates the fault space for pipelines of at most three handlers.
 func enumC07(emit func(E3Case)) {
+	for _, k := range []string{"error", "string", "stringer-error", "abort", "neterr"} {
+		for _, q := range []int{0, 4} {
+			emit(E3Case{HTTPPanic: k, Queue: q})
+		}
+	}
 	type eshape struct {
 		present, swallow, before bool
 	}
@@ -159,6 +226,9 @@ func runC07(c E3Case) (out core.Outcome) {
 		if data, err := json.Marshal(map[string]interface{}{"case": c}); err == nil {
 			_ = os.WriteFile(fmt.Sprintf("%s/current-%s.json", dir, shard), data, 0o644)
 		}
+	}
+	if c.HTTPPanic != "" {
+		return runC07HTTP(c, cls)
 	}
 	r := newE3Rig(c)
 	m := newE3Model()
